@@ -107,6 +107,7 @@ def run(ctx, tier):
     ctx.rule("M1", "fixed-width block reads/writes (SIMD loads, 8-byte memcpy words) stay inside the buffer")
     ctx.rule("M2", "copies into fixed-size stack arrays are bounded by the array size")
     ctx.rule("M4", "the UTF-8 length pre-computation and the UTF-8 writer agree on the code-point class boundaries")
+    ctx.rule("M5", "NFD sizing and writing agree: the length counted for a precomposed Hangul syllable equals the number of jamo decompose() stores")
     ctx.rule("M3", "look-ahead reads x[i + k] (k >= 1) keep the dominating guard that bounds them")
     cfgs = ["release"] if tier == "quick" else ["release", "devchecks", "amalgamated", "avx512"]
     check_fixture(ctx)
@@ -125,6 +126,7 @@ def run(ctx, tier):
         check_loops(ctx, fxs[name], name)
         check_lookahead(ctx, fxs[name], name)
         check_utf8_sizing(ctx, fxs[name])
+        check_decomposition_sizing(ctx, fxs[name])
     # a url_aggregator offset that is off by a few bytes is an out-of-range substr()/erase() (std::out_of_range escapes,
     # or bytes outside the component are read) for particular component lengths: the offset discipline is part of C02
     from rules import c07
@@ -867,3 +869,94 @@ def check_utf8_sizing(ctx, fx):
               str([x[1] for x in branches]), "the writer's branches store %s bytes" % [x[1] for x in branches],
               where=wr["loc"].replace("/repo/", ""))
     ctx.floor("M4", 3, 3, "boundary obligations")
+
+
+# ---------------------------------------------------------------------------
+def _hangul_region(f):
+    """Blocks that run only when the character is a precomposed Hangul syllable: reachable from the true edge of the
+    `c < hangul_sbase + hangul_scount` test (second conjunct of the range test) and not from its false edge."""
+    blk = {b["id"]: b for b in f["blocks"]}
+
+    def reach(start):
+        seen, st = set(), list(start)
+        while st:
+            x = st.pop()
+            if x in seen:
+                continue
+            seen.add(x)
+            # forward edges only (clang numbers blocks downwards along the flow): the loop's back edge would make
+            # everything reachable from everywhere
+            st += [e["to"] for e in blk[x]["succ"] if not e.get("pruned") and e["to"] < x]
+        return seen
+    for b in f["blocks"]:
+        c = b["term"].get("econd") if b["term"].get("econd") is not None else b["term"].get("cond")
+        if c is None:
+            continue
+        t = X.show(c)
+        if "hangul_scount" in t and "<" in t:
+            tr = [e["to"] for e in b["succ"] if e["when"] == "true"]
+            fa = [e["to"] for e in b["succ"] if e["when"] == "false"]
+            return blk, reach(tr) - reach(fa), tr
+    return blk, None, None
+
+
+def check_decomposition_sizing(ctx, fx):
+    """M5.  normalize() resizes the string by compute_decomposition_length() and decompose() then fills it backwards,
+    writing 2 or 3 jamo for every precomposed Hangul syllable.  The count used for a Hangul syllable (in
+    compute_decomposition_length itself, or in the helper it delegates to) must be those same numbers; a helper that
+    answers another question for Hangul (0 = "already NFC") makes decompose() write in front of the buffer."""
+    cnt = fx.fn1("ada::idna::compute_decomposition_length")
+    wr = fx.fn1("ada::idna::decompose")
+    where = cnt["loc"].replace("/repo/", "")
+    # the counting function may delegate the per-character length to one first-party helper
+    src = cnt
+    blk, reg, tr = _hangul_region(cnt)
+    if reg is None:
+        callee = None
+        for n, s, b in C.all_nodes(cnt):
+            if n.get("k") == "call" and n.get("fp") and (n.get("qname") or "").startswith("ada::idna::") and len(n.get("args", [])) == 1:
+                g = fx.by_key.get(n.get("callee"))
+                if g is not None and "blocks" in g:
+                    callee = g
+        if callee is None:
+            ctx.broken("M5: the Hangul range test was found neither in compute_decomposition_length nor in a helper it calls")
+        src = callee
+        blk, reg, tr = _hangul_region(callee)
+        if reg is None:
+            ctx.broken("M5: %s (the helper compute_decomposition_length delegates to) has no Hangul range test" % callee["qname"])
+    counted = set()
+    for bid in reg:
+        for st in blk[bid]["stmts"]:
+            if st["k"] == "return":
+                v = X.const_val(st.get("e"))
+                if v is not None:
+                    counted.add(v)
+            for n in X.stmt_nodes(st, local=True):
+                if n.get("k") == "assign" and n.get("op") == "=" and X.const_val(n["rhs"]) is not None and \
+                        "length" in X.show(n["lhs"]):
+                    counted.add(X.const_val(n["rhs"]))
+    wblk, wreg, wtr = _hangul_region(wr)
+    if wreg is None:
+        ctx.broken("M5: decompose() has no Hangul range test")
+
+    # number of stores `input[--idx] = ...` on the paths through the Hangul-only region
+    def stores(bid, seen):
+        b = wblk[bid]
+        k = sum(1 for st in b["stmts"] for n in X.stmt_nodes(st, local=True)
+                if n.get("k") == "assign" and n.get("op") == "=" and "--" in X.show(n["lhs"]))
+        nxt = [e["to"] for e in b["succ"] if not e.get("pruned") and e["to"] in wreg and e["to"] not in seen and e["to"] < bid]
+        if not nxt:
+            return {k}
+        out = set()
+        for x in nxt:
+            out |= {k + y for y in stores(x, seen | {bid})}
+        return out
+    written = set()
+    for x in wtr:
+        written |= stores(x, set())
+    ctx.check("M5", "Hangul syllable: counted length %s = jamo written %s" % (sorted(counted), sorted(written)),
+              counted == written and bool(written), "%s" % sorted(written),
+              "%s counts %s for a precomposed Hangul syllable but decompose() stores %s code points for it: the string is resized by "
+              "too little and the backwards fill writes in front of the buffer" % (src["qname"], sorted(counted), sorted(written)),
+              where=src["loc"].replace("/repo/", ""))
+    ctx.floor("M5", 1, 1, "sizing / writing pair")
